@@ -863,7 +863,13 @@ def compare_roundtrip(ctx, p, rd, conflicts_reported, exc):
         elif q in reused_paths or any(q.startswith(k + ".") for k in reused_paths):
             fail("roundtrip:deleted-path-taken-by-renamed-entry:not-restored", "%s: before %s after %s" % (q, M.short(e), M.short(a)))
         else:
-            fail("roundtrip:disk-differs", "%s: before %s after %s" % (q, M.short(e), M.short(a)))
+            base_q = q.rsplit(".", 1)[0] if q.rsplit(".", 1)[-1] in ("BASE", "THIS", "OTHER") else None
+            lines_paths = {pre.paths.get(f) for f in pre.paths if "lines" in sel.of(f)}
+            if base_q is not None and base_q in lines_paths:
+                # conflict helper files of a file of which only some hunks were shelved
+                fail("roundtrip:partly-selected-hunks:conflict-helper-files", "%s: before %s after %s" % (q, M.short(e), M.short(a)))
+            else:
+                fail("roundtrip:disk-differs", "%s: before %s after %s" % (q, M.short(e), M.short(a)))
     if conflicts_reported or act.conflicts:
         text = repr(conflicts_reported) + repr(act.conflicts)
         named = [x for x in sorted(set(pre.work) | set(rd.basis_paths) | set(info["kept"])) if ("'%s'" % x) in text]
@@ -872,6 +878,11 @@ def compare_roundtrip(ctx, p, rd, conflicts_reported, exc):
             if cand in labels:
                 f = cand
                 break
+        if f is None:
+            lines_paths = {pre.paths.get(x) for x in pre.paths if "lines" in sel.of(x)}
+            cpaths = [getattr(c, "path", None) for c in (list(conflicts_reported or []) + list(act.conflicts_objs if hasattr(act, "conflicts_objs") else []))]
+            if named and all(pre.paths.get(x, x) in lines_paths or x in lines_paths for x in named):
+                f = "partly-selected-hunks"
         f = (f + ":") if f else ""
         fail("roundtrip:%sconflicts-reported" % f, "do_merge -> %r, tree conflicts %s" % (conflicts_reported, M.short(act.conflicts, 300)))
     if not diffs and not keys:
